@@ -262,6 +262,7 @@ class BasinsRetrieve(Contract):
     class_modules = {"RTDCBase": COREMOD}
     native = {"get_basin_classes", "basin_priority_sorted_key"}
     params = ("self",)
+    inline = {"RTDCBase._basin_is_usable"}
 
     def __init__(self):
         super().__init__()
